@@ -39,7 +39,8 @@ from lib.core import Ctx, rat
 from lib import stage
 
 ID = "C10"
-LEAN_TARGETS = ["AiuVerif.Props.C10"]
+NEEDS_GEN = True
+LEAN_TARGETS = ["AiuVerif.Props.C10", "AiuVerif.Props.Order"]
 THEOREMS = [
     "AiuVerif.C10.power_refines_spec",
     "AiuVerif.C10.nonneg",
@@ -54,6 +55,7 @@ THEOREMS = [
     "AiuVerif.C10.pipeline_refines_spec",
     "AiuVerif.C10.equal_readings_zero_power",
     "AiuVerif.C10.raises_on_out_of_range_reading",
+    "AiuVerif.Order.power_order",   # registration order / guards / shared context, re-decided on the generated sites
 ]
 RULE = ("ops pipe/extract/sort/compute. Exhaustive: every counter sequence of length <=3 (quick) / <=4 over readings "
         "{0, 2^32-1000, 2^32-500, 50, 2^31} x time steps {0,1,2,2^21} us (compute); every tie sequence of length <=3 over "
